@@ -64,6 +64,23 @@ def run(tier: str) -> int:
         cfg["batches"] = n
         lim = 5 if tier == "quick" else (None if n <= 5 else 24)
         jobs.append((cfg, splits_for(n, rng, lim), str(REPO)))
+    # long runs on fine grids for the cheap stateful samplers: a state lost (or de-aliased) by the restore may take several batches
+    # to surface in the sampled parameters; one restore at every possible position
+    cheap = [[["ParticleSwarmSampler", 2]], [["HaltonSampler", 2], ["ParticleSwarmSampler", 3]],
+             [["RandomUniformSampler", 3], ["BestBatchSampler", 2], ["ParticleSwarmSampler", 2]],
+             [["RSequenceSampler", 2], ["HaltonSampler", 1], ["BestBatchSampler", 2]]]
+    for i in range(4 if tier == "quick" else 24):
+        cfg = twins.random_config(rng, rl=False)
+        cfg["lineup"] = [list(x) for x in cheap[i % len(cheap)]]
+        d = len(cfg["prec"])
+        cfg["prec"] = [rng.choice([1e-4, 1e-5]) for _ in range(d)]
+        cfg["E"], cfg["N"], cfg["loss"] = 1, 20, "MinkowskiLoss"
+        n = 12 if tier == "quick" else rng.choice([12, 16, 20])
+        cfg["batches"] = n
+        cuts = [[(n, "end")]] + [[(k, "restore"), (n - k, "end")] for k in range(1, n)]
+        if tier == "thorough":
+            cuts += [[(k, "restore"), (1, "restore"), (n - k - 1, "end")] for k in range(1, n - 1)]
+        jobs.append((cfg, cuts, str(REPO)))
     results = twins.pool_map(twins._c05_worker, jobs, procs=8)  # noqa: SLF001
     res = tlc.validate("Observable", "Observable.cfg", {"traces": [{"ev": r["ev"]} for r in results]})
     chk.add_validation(res)
